@@ -410,7 +410,7 @@ func c20RunStash(c *lib.Ctx) (int, int) {
 	_ = os.MkdirAll(filepath.Join(dir, "snap"), 0o755)
 	defer os.RemoveAll(dir)
 	cases := c20StashSweep()
-	for i := c.Scale(150, 900); i > 0; i-- {
+	for i := c.Scale(150, 1500); i > 0; i-- {
 		cases = append(cases, c20StashComposite(c, c20Rng))
 	}
 	// the generator's forms must satisfy the model's guard
@@ -723,7 +723,7 @@ func c20RunCfg(c *lib.Ctx) (int, int) {
 		cases = append(cases, c20CfgCase{Cell: c20CellName("setq-with/" + pv.Var + "=" + pv.Lit), Sessions: [][]c20Setting{append(append([]c20Setting{}, trio...), pv), {{"*repl-debug*", "t"}}}})
 	}
 	r := c20Rng
-	for i := c.Scale(14, 70); i > 0; i-- {
+	for i := c.Scale(14, 100); i > 0; i-- {
 		cs := c20CfgCase{}
 		for s := 1 + r.Intn(3); s > 0; s-- {
 			var ses []c20Setting
